@@ -36,7 +36,7 @@ func copyDir(src, dst string) error {
 }
 
 func runC13(t *Trace, r *Rng, tier string, _ []string) {
-	nRet, nHist := 1500, 36
+	nRet, nHist := 1500, 64
 	if tier == "thorough" {
 		nRet, nHist = 100000, 120
 	}
